@@ -143,7 +143,7 @@ KeptBy(e) ==
     UNION {SeqRange(e.outs[i].items) : i \in DOMAIN e.outs} \cup SeqRange(e.vals) \cup SeqRange(e.recv)
 
 SrcKindOK(name, kinds) ==
-    CASE name \in IterOps \cup {"iter_fold", "iter_rfold", "iter_clone", "collect_iter"} -> kinds[1] = "iter"
+    CASE name \in IterOps \cup {"iter_fold", "iter_rfold", "iter_clone", "collect_iter"} \cup SearchOps -> kinds[1] = "iter"
       [] name \in {"append", "prepend", "pop_back", "pop_front", "split", "remove", "swap_remove",
                    "unflatten", "into_array", "into_native", "into_tuple", "into_iter", "box_new",
                    "vec_from_arr", "bslice_from_arr"} -> kinds[1] = "arr"
@@ -165,12 +165,12 @@ NewOp(c, srcs, kinds) ==
      srcs |-> srcs, kinds |-> kinds, n |-> c.n, okind |-> c.okind,
      k |-> 0, out |-> <<>>, acc |-> 0, phase |-> "idle", cmap |-> <<>>,
      polls |-> 0, got |-> <<>>, gdropped |-> {}, sawNone |-> FALSE, hints |-> <<>>, truthful |-> c.truthful,
-     fl |-> {}, allocs |-> 0, cur |-> <<>>, spare |-> c.spare,
+     fl |-> {}, allocs |-> 0, cur |-> <<>>, spare |-> c.spare, stopped |-> FALSE,
      blks |-> [i \in DOMAIN c.recv |-> pool[c.recv[i]].blk]]
 
 IsCbOp(name) == name \in CbOps
 IsCollectOp(name) == name \in {"try_from_iter", "from_iter", "try_boxed_from_iter", "boxed_from_iter", "builder_extend"}
-IsSerdeOp(name) == name \in {"deserialize"}
+IsSerdeOp(name) == name \in {"deserialize", "deserialize_in_place"}
 
 \* c = [op, recv, byval, arg, elems, n, okind, truthful]
 Call(c) ==
@@ -185,7 +185,15 @@ Call(c) ==
        /\ SrcKindOK(c.op, kinds)
        /\ Defined(c.op, [i \in DOMAIN srcs |-> Len(srcs[i])], c.arg)
        /\ loose' = loose \ SeqRange(c.elems)
-       /\ IF c.op \in CloneFromOps
+       /\ IF c.op = "deserialize_in_place"
+          THEN \* like clone_from: the place is mutably borrowed for the call; what it held is the library's to drop
+               /\ Len(c.recv) = 1 /\ ~c.byval[1] /\ kinds[1] = "arr" /\ c.n = Len(srcs[1])
+               /\ op' = NewOp(c, srcs, kinds)
+               /\ pool' = [pool EXCEPT ![c.recv[1]].items = <<>>]
+               /\ LET f == Scoped(SeqRange(srcs[1]), ReplacedScope) IN
+                  /\ owed' = OwedAfterOwe(f)
+                  /\ life' = LifeAfterOwe(f)
+          ELSE IF c.op \in CloneFromOps
           THEN \* the destination is mutably borrowed for the whole call: nobody can look at it; what it held is
                \* to be dropped by the library (scope "replaced") at any point of the call
                /\ Len(c.recv) = 2 /\ ~c.byval[1] /\ ~c.byval[2] /\ c.n = Len(srcs[2])
@@ -274,7 +282,7 @@ RetPlain(r) ==
 \* b = [k, idx, args, acc]
 Cb(b) ==
     /\ ~Idle /\ IsCbOp(op.name) /\ op.phase = "idle"
-    /\ b.k = op.k /\ op.k < op.n
+    /\ b.k = op.k /\ op.k < op.n /\ ~op.stopped
     /\ (op.name = "generate" => b.idx = op.k)
     \* zipping with an array of another (plain) element type: its element k arrives with ours
     /\ (op.name = "zipx" => b.pv = op.k)
@@ -283,19 +291,35 @@ Cb(b) ==
        ELSE ItemsEq(b.args, CbArgs(op.name, op.srcs, op.n, op.k))
     /\ AllLive(b.args)
     /\ (op.name \in Folds => b.acc = op.acc)
-    /\ loose' = loose \cup {b.args[i] : i \in {j \in DOMAIN b.args : op.byval[j]}}
+    /\ loose' = loose \cup {b.args[i] : i \in {j \in DOMAIN b.args : op.byval[j] \/ op.name \in SearchByVal}}
     /\ op' = [op EXCEPT !.phase = "incb", !.cur = b.args]
-    /\ UNCHANGED <<life, pool, owed, heap, cfg>>
+    \* a searching consumer takes the element out of the iterator before the predicate sees it
+    /\ pool' = IF op.name \in SearchOps
+               THEN [pool EXCEPT ![op.recv[1]].items =
+                        IF op.name \in BackSearch THEN TakeN(op.srcs[1], op.n - op.k - 1) ELSE DropN(op.srcs[1], op.k + 1)]
+               ELSE pool
+    /\ UNCHANGED <<life, owed, heap, cfg>>
 
 \* b = [k, ret, acc, panic]
 CbRet(b) ==
     /\ ~Idle /\ IsCbOp(op.name) /\ op.phase = "incb"
     /\ b.k = op.k
     /\ IF b.panic
-       THEN LET f == Scoped(Unvisited \cup SeqRange(op.out), OpScope) IN
+       THEN \* (find / rfind: the predicate only borrowed the element; the library holds it and drops it while unwinding)
+            LET f == Scoped(Unvisited \cup SeqRange(op.out) \cup (IF op.name \in SearchByRef THEN SeqRange(op.cur) ELSE {}), OpScope) IN
             /\ owed' = OwedAfterOwe(f)
             /\ life' = LifeAfterOwe(f)
             /\ op' = [op EXCEPT !.phase = "unwinding"]
+            /\ UNCHANGED loose
+       ELSE IF op.name \in SearchOps
+       THEN \* b.acc = 1: the predicate's answer ends the search
+            /\ b.ret = <<>> /\ b.acc \in {0, 1}
+            /\ LET stop == b.acc = 1
+                   f == IF op.name \in SearchByRef /\ ~stop THEN Scoped(SeqRange(op.cur), OpScope) ELSE <<>>
+               IN /\ owed' = OwedAfterOwe(f)
+                  /\ life' = LifeAfterOwe(f)
+                  /\ op' = [op EXCEPT !.phase = "idle", !.k = @ + 1, !.stopped = stop,
+                                      !.out = IF op.name \in SearchByRef /\ stop THEN op.cur ELSE @]
             /\ UNCHANGED loose
        ELSE IF op.name \in Folds
        THEN /\ b.ret = <<>>
@@ -385,8 +409,27 @@ UnwoundCloneFrom(u) ==
     /\ op' = NoOp
     /\ UNCHANGED <<life, loose, heap, cfg>>
 
+\* a searching consumer returned: it stopped at the ending answer or ran out of elements; the iterator holds exactly
+\* the elements not visited (Cb kept the pool up to date); find / rfind hand the found element to the caller
+RetSearch(r) ==
+    /\ ~Idle /\ op.name \in SearchOps /\ op.phase = "idle"
+    /\ op.stopped \/ op.k = op.n
+    /\ OpOwedEmpty
+    /\ r.err = FALSE /\ r.outs = <<>>
+    /\ r.vals = (IF op.name \in SearchByRef THEN op.out ELSE <<>>)
+    /\ AllLive(r.vals)
+    /\ r.res = (CASE op.name = "iter_position" -> (IF op.stopped THEN op.k - 1 ELSE -1)
+                  [] op.name = "iter_rposition" -> (IF op.stopped THEN op.n - op.k ELSE -1)
+                  [] op.name = "iter_any" -> (IF op.stopped THEN 1 ELSE 0)
+                  [] op.name = "iter_all" -> (IF op.stopped THEN 0 ELSE 1)
+                  [] OTHER -> -1)
+    /\ loose' = loose \cup SeqRange(r.vals)
+    /\ \A i \in DOMAIN r.obs : IterObsOK(r.obs[i])
+    /\ op' = NoOp
+    /\ UNCHANGED <<life, pool, owed, heap, cfg>>
+
 RetCb(r) ==
-    /\ ~Idle /\ IsCbOp(op.name) /\ op.name \notin CloneFromOps /\ op.phase = "idle"
+    /\ ~Idle /\ IsCbOp(op.name) /\ op.name \notin CloneFromOps \cup SearchOps /\ op.phase = "idle"
     /\ op.k = op.n
     /\ OpOwedEmpty
     /\ r.err = FALSE /\ r.vals = <<>>
